@@ -19,9 +19,9 @@ CHECKS = {
  "C05": C("Coq proof: determinacy / progress / complete_runs_agree over arbitrary dependency-respecting schedules + disk_route; per-graph certificates by verified wf_check; randomized and adversarial schedules with argument fingerprints on the real graphs; demand-driven (depth-first from the outputs) schedule; disk shuffles with max_branch; caller's source objects fingerprinted before from_pandas",
           "Determinacy and deadlock-freedom are proved for every well-formed graph and every schedule; the hypothesis (pure task functions) is observed on the real system: each workload graph is executed under FIFO/LIFO/reverse/random topological orders with fingerprints of every task argument before and after the call, and under the threaded scheduler with up to 16 threads.",
           "Real thread interleavings, the GIL, partd I/O: observed only.", "DESIGN.md section 6 C05"),
- "C06": C("Coq proof (partial: merge, groupby, set_index divisions are outside the model): truthfulness of the reported divisions preserved by every modelled derivation (partition selections, partitionwise operators, fused reads, repartition-to-fewer, head/tail, concat) for all divisions/partitions/selections, refutations of the pre-fix formulas, length push-down schema S13, repartition partition counts; T-GEN obligations (no raw operand _divisions() call, length-preserving flags); T-LAYER correspondence of the real _divisions() formulas with the extracted model; differential: reported npartitions/divisions/lengths vs every computed partition at 5 plan stages",
-          "19 theorems in coq/PropC06.v over Divisions.v (truthful = the property's own statement); the real Partitions/PartitionsFiltered/BlockwiseHead/Head/Tail/RepartitionToFewer/Concat/FusedIO _divisions() are compared with the extracted model on ~1200 generated (divisions, selection/boundaries/operands) cases per run, a disagreement is tested on the computed partitions with the verified truthfulb; divisions/npartitions of ~60 derivations x 4 index dtypes (duplicates straddling borders) x partitionings, the same derivations on partition selections, index merges against single-partition frames, presorted pieces, and every variable of generated programs are compared at logical/simplified/lowered/optimized/fused stage with the index range and count of each computed partition; len/shape/size from metadata vs computed.",
-          "sorted_division_locations (dask) is an oracle; merge/groupby/set_index divisions are covered by the differential only.", "DESIGN.md section 6 C06"),
+ "C06": C("Coq proof (partial: merge, groupby divisions and the quantile computation of set_index divisions are outside the model): truthfulness of the reported divisions preserved by every modelled derivation (partition selections, partitionwise operators, fused reads, repartition-to-fewer, head/tail, concat) for all divisions/partitions/selections, refutations of the pre-fix formulas, length push-down schema S13, repartition partition counts; T-GEN obligations (no raw operand _divisions() call, length-preserving flags); T-LAYER correspondence of the real _divisions() formulas with the extracted model; differential: reported npartitions/divisions/lengths vs every computed partition at 5 plan stages",
+          "47 theorems in coq/PropC06.v over Divisions.v (truthful = the property's own statement); the real Partitions/PartitionsFiltered/BlockwiseHead/Head/Tail/RepartitionToFewer/Concat/FusedIO _divisions() are compared with the extracted model on ~1200 generated (divisions, selection/boundaries/operands) cases per run, a disagreement is tested on the computed partitions with the verified truthfulb; divisions/npartitions of ~60 derivations x 4 index dtypes (duplicates straddling borders) x partitionings, the same derivations on partition selections, index merges against single-partition frames, presorted pieces, and every variable of generated programs are compared at logical/simplified/lowered/optimized/fused stage with the index range and count of each computed partition; len/shape/size from metadata vs computed.",
+          "sorted_division_locations (dask) is an oracle; merge/groupby divisions are covered by the differential only; set_index divisions: their use for routing is modelled (SetIndex.v), their computation from quantiles is not.", "DESIGN.md section 6 C06"),
  "C07": C("Coq proof: schema_sound and schema preservation of every accepted rewrite step (Plan.v); differential: _meta vs each computed partition on dtype mixes incl. empty / all-null partitions; label indexing with column indexers; regression corpus D76-D78",
           "For the fragment: the static schema equals the schema of the computed value and optimization never changes it (proved). For everything else: container kind, labels, order, names and dtype kinds of _meta vs every computed partition and the final result for ~65 derivations over int/float/bool/str/category/datetime columns, at every stage.",
           "_meta derivation by running pandas on stand-ins is not modelled.", "DESIGN.md section 6 C07"),
@@ -77,7 +77,7 @@ EXTRA_TECH = {
  "C03": "; filters crossing reset_index (c03_reset.py); reader hand-over family c03_reader.py (predicate trees over reader-expressible and other atoms, both parquet readers)",
  "C04": "; labels of column-wise statistics (c04_labels.py)",
  "C05": "; hash partitioning by keys with a second consumer of the keys (c05_keys.py); reader-option objects embedded in read tasks (c05_readers.py, private-inputs executor)",
- "C06": "; divisions computed from ordered data (c06_resolve.py); Align.v divisions theorems with T-LAYER align_layer",
+ "C06": "; divisions computed from ordered data (c06_resolve.py); Align.v divisions theorems with T-LAYER align_layer; SetIndex.v (routing of set_index / sort_values on divisions: set_index_truthful, set_index_partition_exact) with T-LAYER setindex_layer",
  "C07": "; concat lowering paths (c07_concat.py); column selections absorbed by 22 source variants (c07_sources.py), node-by-node declared vs computed schema",
  "C08": "; histories of queries sharing argument objects vs a fresh interpreter (c08_alias.py)",
  "C09": "; repartition layers on explicit uneven layouts (c09_repartition.py); groupby plans (c09_groupby.py) with deep planner-object scan and cloudpickle under the no-serialize guard",
